@@ -328,6 +328,10 @@ def parse_scaling(chk, pid, tier, seed):
         if misses > 36 * (ntok + 1):
             fails.append({"kind": "property", "stream": "py:parse_scaling", "case": l.split("\t")[0][:300], "result": r, "noshrink": True,
                           "detail": "family %s n=%d: %d memo misses exceed 36*(tokens+1)=%d (packrat bound)" % (name, n, misses, 36 * (ntok + 1))})
+        # proved relation (Proofs/ScanProofs.v stage1_scans_le_misses): scan steps <= 2 * (tokens + 1) * bodies
+        if scans > 2 * (ntok + 1) * misses:
+            fails.append({"kind": "property", "stream": "py:parse_scaling", "case": l.split("\t")[0][:300], "result": r, "noshrink": True,
+                          "detail": "family %s n=%d: %d recovery scan steps exceed 2*(tokens+1)*misses=%d (proved relation of the model)" % (name, n, scans, 2 * (ntok + 1) * misses)})
         if scans > 2 * (ntok + 1) * (ntok + 1):
             fails.append({"kind": "property", "stream": "py:parse_scaling", "case": l.split("\t")[0][:300], "result": r, "noshrink": True,
                           "detail": "family %s n=%d: %d recovery scan steps exceed 2*(tokens+1)^2" % (name, n, scans)})
